@@ -2,6 +2,7 @@
 """print the prompt given to an independent sub-agent asked to seed a property-breaking change."""
 import json, sys
 pid = sys.argv[1]; wt = sys.argv[2]
+avoid = sys.argv[3] if len(sys.argv) > 3 else ""
 for l in open('/verif/properties.jsonl'):
     p = json.loads(l)
     if p['id'] == pid:
@@ -16,6 +17,7 @@ SCOPE: {p['quantifier']['text']}
 Relevant source files (relative to the worktree): {', '.join(p['anchors']['files'])}
 
 YOUR TASK: make ONE realistic, small change to the library source under {wt}/csvpath (the kind of slip a maintainer could plausibly make: an off-by-one, a wrong comparison, a stale cached value, an early return, effects in the wrong order, a missing reset, a condition that only matters for an unusual input) that BREAKS this property, while the library still imports and the existing test suite still passes. Prefer a change that needs something specific to manifest - an unusual input, a multi-step sequence of operations, a particular position in the file, a particular combination of settings, or two cooperating sites that each look fine alone - rather than one that ordinary use would expose at once. Do not change tests. Do not make the change depend on environment variables, randomness or time.
+{("ALREADY TAKEN - someone else has already seeded the following change for this property, so pick a DIFFERENT mechanism in a different function or file (a different part of the statement, a different operation, a different kind of input): " + avoid) if avoid else ""}
 
 How to run things (no network is available):
 - Python is /venv/bin/python. Run from the worktree root so that `import csvpath` resolves to the worktree copy: `cd {wt} && /venv/bin/python -c "import csvpath; print(csvpath.__file__)"` must print a path under {wt}.
